@@ -112,7 +112,12 @@ def run_task(task):
 
     def make():
         bt = WelfordTracker() if not dyn else ExponentialSmoothingTracker(alpha=a_impl)
-        return MultiValueTracker(bt)
+        mv = MultiValueTracker(bt)
+        if family == 'mixed':
+            # the caller keeps using the tracker object it passed in: the per-key copies must be independent of it
+            bt.update(conv(100))
+            bt.update(conv(-50))
+        return mv
     L = letters(family)
     n = [0]
     states = set()
